@@ -100,6 +100,18 @@ def gen_cases(ctx):
             cand = [l for l in w["layers"] if l["kind"] != "unit" and l["setUp"]]
             if cand:
                 rng.choice(cand)["setUpRaises"] = [0]
+        elif i % 4 == 1:
+            # the first bad outcome is the set-up failure of a layer whose bases were set up on the way to it (and
+            # have to be torn down all the same)
+            cand = [l for l in w["layers"] if l["kind"] != "unit" and l["bases"]]
+            if cand:
+                l_ = rng.choice(cand)
+                l_["setUp"] = True
+                l_["setUpRaises"] = [0]
+                for b_ in worlds.closure(w["layers"], w["layers"].index(l_)):
+                    if w["layers"][b_]["kind"] != "unit" and w["layers"][b_] is not l_:
+                        w["layers"][b_]["setUp"] = w["layers"][b_]["tearDown"] = True
+                        w["layers"][b_]["setUpRaises"] = []
         if rng.random() < 0.3:
             for l in w["layers"]:
                 if l["kind"] != "unit" and l["tearDown"] and rng.random() < 0.5:
